@@ -589,7 +589,8 @@ def check_ir_witnesses(ctx, F):
         # --- enumerator -----------------------------------------------------------------------------------------------------------
         fn = F.fn(IR + "definer::IrDefinerField::from_definer_field")
         D = "crate::parser::types::definer::"
-        if fn is not None:
+        # (a helper with another signature is covered through definer_to_ir below)
+        if fn is not None and len(fn["params"]) == 1:
             for nm, val, orig in (("A", 10, "0x0A"), ("NEG", -1, "-1"), ("BIG", 0x40000000200, "0x40000000200")):
                 fld = ("struct", D + "DefinerField", {"name": nm, "value": ("struct", D + "DefinerValue", {"int": val, "original": orig}), "tags": None})
                 f = fields(run_(fn["path"], [fld], {"::IrTags::from_member_tags": lambda a: ("tags",), "std::string::ToString::to_string": lambda a: str(a[0]) if isinstance(a[0], int) else a[0],
@@ -798,7 +799,37 @@ def check_ir_witnesses(ctx, F):
         check("optional tail { a; if..; b; if..; c; } (member order and kinds)", got,
               ("tail", [("Definition", ("def", "a")), ("IfStatement", ("if", "i1")), ("Definition", ("def", "b")), ("IfStatement", ("if", "i2")), ("Definition", ("def", "c"))]), fn)
 
-    for sec in (versions, sizes, file_info, container_type, enumerator, if_statement, definition, types, arrays, test_values, test_case, members):
+    def whole_definer():
+        # --- a whole definer through definer_to_ir: kind, integer type, enumerators in order with value and spelling ------------
+        fn = F.fn(IR + "definer::definer_to_ir")
+        if fn is None:
+            ctx.violate("ir.witness", "anchor|definer_to_ir", "ir_printer::definer::definer_to_ir not found (anchor disappeared)")
+            return
+        D = "crate::parser::types::definer::"
+        IT = "crate::parser::types::IntegerType::"
+        ov = {"::IrTags::from_member_tags": lambda a: ("tags",), "::IrTags::from_tags": lambda a: ("tags",),
+              "ToString::to_string": lambda a: str(a[0]) if isinstance(a[0], int) else a[0]}
+        for kind, base, enumerators in (
+            ("Enum", "I8", (("NONE", -1, "-1"), ("SMALL", 0, "0"), ("LARGE", 127, "0x7F"))),
+            ("Flag", "U16", (("NONE", 0, "0x00"), ("A", 1, "0x01"), ("HIGH", 0x8000, "0x8000"))),
+            ("Enum", "I32", (("MIN", -2147483648, "-2147483648"), ("MINUS_TWO", -2, "-2"), ("BIG", 0x7FFFFFFF, "0x7FFFFFFF"))),
+            ("Enum", "U64", (("STR", 0x57696E00, '"\\0niW"'), ("TOP", 0xFFFFFFFFFFFFFFFF, "0xFFFFFFFFFFFFFFFF"))),
+        ):
+            d = ("struct", D + "Definer", {"name": "Wit", "definer_ty": ("variant", "wow_message_parser::rust_printer::DefinerType::" + kind),
+                                           "fields": [("struct", D + "DefinerField", {"name": nm, "value": ("struct", D + "DefinerValue", {"int": v, "original": o}), "tags": None}) for nm, v, o in enumerators],
+                                           "basic_type": ("variant", IT + base), "tags": None, "objects_used_in": [],
+                                           "file_info": ("struct", "crate::file_info::FileInfo", {"file_name": "w.wowm", "path": None, "start_position": 3, "end_position": 8})})
+            f = fields(run_(fn["path"], [d], ov))
+            got = None
+            if f:
+                fi = fields(f["file_info"])
+                got = (f["name"], _strip(f["definer_type"]), _strip(f["integer_type"]),
+                       [(fields(e)["name"], fields(fields(e)["value"])["value"], fields(fields(e)["value"])["original_string"]) for e in f["enumerators"]],
+                       (fi["file_name"], fi["start_position"], fi["end_position"]) if fi else None)
+            check(f"{kind.lower()} Wit : {base.lower()} with enumerators {[o for _, _, o in enumerators]}", got,
+                  ("Wit", kind, base, [(nm, str(v), o) for nm, v, o in enumerators], ("w.wowm", 3, 8)), fn)
+
+    for sec in (versions, sizes, file_info, container_type, enumerator, whole_definer, if_statement, definition, types, arrays, test_values, test_case, members):
         section(sec)
     ctx.rule("ir.witness", n, floor=55, note="IR conversion functions interpreted on distinguishing instances (version components incl. literal zeros, min/max sizes, line numbers, container kinds with opcodes, enumerator value and spelling, values of if / else-if / else arms, every attribute of a member definition, enum / flag upcasts and integer widths, array element / size kinds with count or size-field name and compression, test-vector value kinds, test case subject / member order / bytes / lines, member order of optional tails)")
 
